@@ -14,7 +14,7 @@ import findings
 # sequential-engine properties (monitor: specs/core/CoreTrace.tla)
 
 SEQ = {
-    "C01": dict(mc=["core", "dur", "untracked", "lru"], families=["core", "dur", "untracked", "lru", "struct", "intern", "mixed"],
+    "C01": dict(mc=["core", "dur", "untracked", "lru"], families=["core", "dur", "untracked", "lru", "struct", "intern", "churn", "reclaim", "mixed"],
                 needs=["op:set", "dv", "we"],
                 rule="random programs (decision-tree bodies over inputs, cells, calls, structs, interning) x random "
                      "histories; non-trivial = the history has a write, a validated reuse and an execution"),
@@ -23,7 +23,7 @@ SEQ = {
                      "non-trivial = a write, a validated reuse and an execution in one history"),
     "C03": dict(mc=["core", "dur", "untracked", "lru"], families=["core", "dur", "untracked", "lru", "struct"], needs=["op:set", "dv", "we", "eq"],
                 rule="non-trivial = history with a write, a reuse, a re-execution and a backdating comparison"),
-    "C04": dict(mc=["untracked"], families=["untracked"], needs=["op:cell", "we", "dv"],
+    "C04": dict(mc=["untracked"], families=["untracked"], scale=3, needs=["op:cell", "we", "dv"],
                 rule="untracked family: cells read with report_untracked_read, changed together with synthetic writes; "
                      "non-trivial = a cell change, an execution and a reuse"),
     "C05": dict(mc=["lru"], families=["lru"], needs=["op:get", "drop", "we"],
@@ -31,13 +31,13 @@ SEQ = {
                      "dropped and functions executed"),
     "C06": dict(families=["struct"], needs=["new", "we", "op:set"],
                 rule="struct family; non-trivial = structs created and a write"),
-    "C07": dict(families=["churn", "struct", "intern"], needs=["new", "int", "op:set"],
+    "C07": dict(families=["churn", "reclaim", "struct", "intern"], needs=["new", "int", "op:set"],
                 rule="churn family (conditional struct creation, interned revisions=1..3 with a coarse hash so that slots "
                      "are shared, long write-heavy histories); non-trivial = structs and interned values created and writes"),
-    "C08": dict(families=["intern", "churn"], needs=["int", "op:set"],
+    "C08": dict(families=["intern", "churn", "reclaim"], needs=["int", "op:set"],
                 rule="interning from several queries over a small value domain across revisions; non-trivial = interning "
                      "and a write in one history"),
-    "C09": dict(families=["churn", "intern"], needs=["int", "irec", "op:set"],
+    "C09": dict(families=["churn", "reclaim", "intern"], needs=["int", "irec", "op:set"],
                 rule="interned types with revisions=1,2,3,MAX; non-trivial = interning, an active-revision record and a write"),
     "C10": dict(families=["spec"], needs=["spec", "new", "op:set"],
                 rule="spec family: creators that specify / call the specifiable function in both orders; "
@@ -66,6 +66,8 @@ TIERS = {
     "quick": dict(njobs=150, nops=25),
     "thorough": dict(njobs=4000, nops=40),
 }
+# families that need long histories
+NOPS_FACTOR = {"churn": 3, "reclaim": 2}
 
 ASSUME_SEQ = [
     "TLC evaluates specs/core/CoreTrace.tla + Sem.tla faithfully; the harness interpreter logs what it does",
@@ -103,7 +105,7 @@ def run_seq(pid, tier, seed, replay):
         fams = cfg["families"]
         with ThreadPoolExecutor(max_workers=min(8, len(fams))) as ex:
             futs = [ex.submit(seqcheck.run_family, binary, fam, seed * 1000 + i,
-                              max(10, int(t["njobs"] * cfg.get("scale", 1))), t["nops"], wd)
+                              max(10, int(t["njobs"] * cfg.get("scale", 1))), t["nops"] * NOPS_FACTOR.get(fam, 1), wd)
                     for i, fam in enumerate(fams)]
             results += [f.result() for f in futs]
     return finish(pid, tier, seed, results, cfg, known, wd, t0, mc=mcinfo)
@@ -116,7 +118,7 @@ def run_mc_part(pid, cfg, tier, seed, binary, wd, results):
         return None
     info = {"states": 0, "transitions": 0, "mc_models": [], "replayed_histories": 0, "replay_fetches_compared": 0,
             "drift": 0, "drift_samples": [], "exhaustive": True}
-    limit = 1500 if tier == "quick" else 30000
+    limit = 5000 if tier == "quick" else 60000
     for fam in fams:
         mc = mccheck.run_mc(fam, tier, wd)
         jobs = mccheck.replay_jobs(mc, limit, seed)
